@@ -153,7 +153,7 @@ def check(run):
     c_rs = os.path.join(wd, "mc_rs.cfg")
     open(c_rs, "w").write("CONSTANTS MinN = 0 MaxN = %d LawN = %d\nINIT Init\nNEXT Next\nINVARIANT Laws GenCase\nCHECK_DEADLOCK FALSE\n" % (maxn, lawn))
     c_bh = os.path.join(wd, "mc_bh.cfg")
-    open(c_bh, "w").write("CONSTANTS MaxLen = 3\nINIT Init\nNEXT Next\nINVARIANT Laws GenCase\nCHECK_DEADLOCK FALSE\n")
+    open(c_bh, "w").write("CONSTANTS MaxLen = 3 MaxTie = %d\nINIT Init\nNEXT Next\nINVARIANT Laws GenCase\nCHECK_DEADLOCK FALSE\n" % (64 if thorough else 40))
     res = par_map([("rs", lambda: tlc(D, "MC_RankStats", cfg=c_rs, workers=10 if thorough else 8, timeout=3000, xmx="8g")),
                    ("bh", lambda: tlc(D, "MC_BH", cfg=c_bh, workers=2, timeout=1500))])
     for nm, label in (("rs", "RankStats definitions: laws + every weak order of <= %d points x every split" % maxn),
